@@ -97,7 +97,8 @@ def argv_of(opts, paths):
     return a + list(paths)
 
 
-BODY_KINDS = ["empty", "code", "comment", "shebang", "blank-lead", "crlf", "no-final-newline"]
+BODY_KINDS = ["empty", "code", "comment", "shebang", "blank-lead", "crlf", "no-final-newline", "bom"]
+LONG_HOLDERS = [f"Contributor Number {i:03d} of the Very Long Named Organisation <contributor{i:03d}@example.org>" for i in range(60)]
 
 
 def body(style, kind):
@@ -122,6 +123,8 @@ def body(style, kind):
         return code.replace("\n", "\r\n")
     if kind == "no-final-newline":
         return code.rstrip("\n")
+    if kind == "bom":
+        return "\ufeff" + code
     raise AssertionError(kind)
 
 
